@@ -1156,6 +1156,8 @@ var verifExtraConfigs = []struct{ name, json string }{
 	{"unrelated-class-in-builtin-frame", `{"frame": "Builtin", "class": "Zzunrelated", "instance_methods": [{"name": "foo", "arguments": [], "return_type": {"type": ["String"]}}], "class_methods": [{"name": "make", "arguments": [], "return_type": {"type": ["Zzunrelated"]}}]}`},
 	{"unrelated-class-with-extends", `{"frame": "Builtin", "class": "Zzchild", "extends": ["Array"], "instance_methods": [{"name": "first", "arguments": [], "return_type": {"type": ["String"]}}], "class_methods": []}`},
 	{"same-short-name-as-user-module", `{"frame": "Other", "class": "Mm", "instance_methods": [{"name": "mod_m", "arguments": [], "return_type": {"type": ["String"]}}], "class_methods": []}`},
+	{"unrelated-class-whose-methods-are-named-like-object-and-kernel-methods", `{"frame": "Builtin", "class": "Zzprobe", "instance_methods": [{"name": "sleep_ms", "arguments": [{"type": ["String"]}], "return_type": {"type": ["String"]}}, {"name": "system", "arguments": [{"type": ["Int"]}], "return_type": {"type": ["Int"]}}, {"name": "to_s", "arguments": [{"type": ["Int"]}], "return_type": {"type": ["Int"]}}, {"name": "nil?", "arguments": [{"type": ["Int"]}], "return_type": {"type": ["Int"]}}], "class_methods": [{"name": "methods", "arguments": [{"type": ["Int"]}], "return_type": {"type": ["Int"]}}]}`},
+	{"unrelated-class-in-another-frame-whose-methods-are-named-like-object-and-array-methods", `{"frame": "Other", "class": "Zzprobe", "instance_methods": [{"name": "sleep_ms", "arguments": [{"type": ["String"]}], "return_type": {"type": ["String"]}}, {"name": "first", "arguments": [{"type": ["String"]}], "return_type": {"type": ["Float"]}}, {"name": "push", "arguments": [], "return_type": {"type": ["Float"]}}], "class_methods": []}`},
 }
 
 // VerifExtraConfig: the same program is analysed under the core configuration and under the
@@ -1167,7 +1169,9 @@ func VerifExtraConfig(n int) {
 	s := verifInstallSym("a")
 	verifapi.WitnessList("Sym.a", verifKN(s.ka))
 	src := "module Mm\ndef mod_m\n1\nend\nend\nclass Aa\ninclude Mm\ndef foo\nSym.a\nend\nend\nclass Bb < Aa\ndef bar\nfoo\nend\nend\n" +
-		"dbtp Bb.new.foo\ndbtp Aa.new.foo\ndbtp Bb.new.bar\ndbtp Bb.new.mod_m\nv = [1].first\ndbtp v\nBb.new.nope\n"
+		"dbtp Bb.new.foo\ndbtp Aa.new.foo\ndbtp Bb.new.bar\ndbtp Bb.new.mod_m\nv = [1].first\ndbtp v\nBb.new.nope\n" +
+		// calls the shipped signatures reject: an extra class must not make them acceptable
+		"w = sleep_ms \"250\"\ndbtp w\nsystem 5\nt = 5.to_s(3)\ndbtp t\nq = 5.nil?(1)\ndbtp q\nf = [1].first(\"s\")\ndbtp f\ng = [1].push\ndbtp g\nm = Aa.methods(1)\ndbtp m\n"
 	flags := cmd.NewExecuteFlags()
 	if withI == 1 {
 		flags.IsDefineInfo = true
@@ -1190,7 +1194,8 @@ func VerifExtraConfig(n int) {
 // ---- C17: block parameters and block locals ----
 
 var verifBlockNames = []string{"each-do-one-param", "each-braces-one-param", "each_with_index-two-params", "surplus-parameter-is-nil", "hash-each-value",
-	"times-integer-param", "each_char-string-param", "shadowed-outer-variable-restored", "block-local-not-visible-after", "nested-blocks", "no-params", "range-each"}
+	"times-integer-param", "each_char-string-param", "shadowed-outer-variable-restored", "block-local-not-visible-after", "nested-blocks", "no-params", "range-each",
+	"shadowing-block-containing-a-block", "shadowing-brace-block-containing-a-brace-block", "inner-parameter-shadows-outer-block-local", "inner-parameter-shadows-outer-parameter"}
 
 func VerifBlocks(n int) {
 	sk := verifapi.Concrete(verifapi.Int("skeleton", 0, len(verifBlockNames)-1))
@@ -1245,6 +1250,20 @@ func VerifBlocks(n int) {
 	case 11:
 		src = "x = Sym.a\n(1..3).each do |i|\ndbtp i\nend\n"
 		exps = []ex{{"C17-p1", 3, []string{"Integer"}, "block-parameter-type-wrong"}}
+	case 12:
+		src = "x = Sym.b\na = [Sym.a]\na.each do |x|\n3.times do |i|\ndbtp i\nend\ndbtp x\nend\ndbtp x\n"
+		exps = []ex{{"C17-p1", 5, []string{"Integer"}, "block-parameter-type-wrong"}, {"C17-p2", 7, []string{verifKN(s.ka)}, "outer-block-parameter-lost-after-inner-block"},
+			{"C17-p3", 9, []string{verifKN(s.kb)}, "shadowed-variable-not-restored"}}
+	case 13:
+		src = "x = Sym.b\na = [Sym.a]\na.each { |x|\n\"ab\".each_char { |c|\ndbtp c\n}\n}\ndbtp x\n"
+		exps = []ex{{"C17-p1", 5, []string{"String"}, "block-parameter-type-wrong"}, {"C17-p2", 8, []string{verifKN(s.kb)}, "shadowed-variable-not-restored"}}
+	case 14:
+		src = "a = [Sym.a]\nb = [Sym.b]\na.each do |e|\nw = 1.5\nb.each do |w|\ndbtp w\nend\ndbtp w\nend\ndbtp w\n"
+		exps = []ex{{"C17-p1", 6, []string{verifKN(s.kb)}, "block-parameter-does-not-shadow"}, {"C17-p2", 8, []string{"Float"}, "shadowed-variable-not-restored"}}
+	case 15:
+		src = "a = [Sym.a]\nb = [Sym.b]\na.each do |e|\nb.each do |e|\ndbtp e\nend\ndbtp e\nend\ndbtp a\n"
+		exps = []ex{{"C17-p1", 5, []string{verifKN(s.kb)}, "block-parameter-does-not-shadow"}, {"C17-p2", 7, []string{verifKN(s.ka)}, "shadowed-variable-not-restored"},
+			{"C17-p3", 9, verifArrayAlts([]int{s.ka}), "receiver-changed-by-block"}}
 	}
 	verifapi.Witness("src", src)
 	out := verifRun(src)
@@ -1258,6 +1277,12 @@ func VerifBlocks(n int) {
 		verifapi.Witness("C17-local.demand", "not:Integer")
 		verifapi.Classify(cls("block-local-visible-after-block"))
 		verifapi.Assert(verifLine(out, 6) != "Integer", "C17-local")
+	}
+	if sk == 14 {
+		verifapi.Witness("C17-local.row", "10")
+		verifapi.Witness("C17-local.demand", "not:Float")
+		verifapi.Classify(cls("block-local-visible-after-block"))
+		verifapi.Assert(verifLine(out, 10) != "Float", "C17-local")
 	}
 }
 
@@ -1280,10 +1305,16 @@ func verifHasLine(out, prefix, suffix string) bool {
 // mode 0: -i hints name the def row, c/ or i/, and the visibility in effect; mode 1: --define
 // records carry the def rows; mode 2: --hover on a call row (the row is a solver variable over
 // the call rows) shows the called method's signature.
+var visName3 = []string{"public", "private", "protected"}
+
 func VerifDefineInfo(n int) {
 	mode := verifapi.Concrete(verifapi.Int("mode", 0, 2))
 	nb := verifapi.Concrete(verifapi.Int("blank", 0, 2))
 	vis := verifapi.Concrete(verifapi.Int("vis", 0, 2))
+	// visibility keyword inside the `class << self` block, left in effect when the block ends
+	// (only combined with blank=0 to keep the product small)
+	svis := verifapi.Concrete(verifapi.Int("svis", 0, 2))
+	verifapi.Assume(svis == 0 || nb == 0)
 	s := verifInstallSym("a")
 	verifapi.WitnessList("Sym.a", verifKN(s.ka))
 	src := ""
@@ -1299,7 +1330,7 @@ func VerifDefineInfo(n int) {
 	rCls := line("def self.cls_m")
 	line("1")
 	line("end")
-	visName := []string{"public", "private", "protected"}[vis]
+	visName := visName3[vis]
 	if vis > 0 {
 		line(visName)
 	}
@@ -1310,6 +1341,9 @@ func VerifDefineInfo(n int) {
 		line("public")
 	}
 	line("class << self")
+	if svis > 0 {
+		line(visName3[svis])
+	}
 	rSing := line("def sing_m")
 	line("4")
 	line("end")
@@ -1327,10 +1361,14 @@ func VerifDefineInfo(n int) {
 	cPub := line("k.pub_m(v)")
 	cTop := line("top_m(1, 2)")
 	cCls := line("Kk.cls_m")
+	cAfter := line("k.after_m")
 	verifapi.Witness("src", src)
 	flags := cmd.NewExecuteFlags()
 	pre := "@./a.rb:::"
 	shape := "blank" + verifItoa(nb) + "/" + visName
+	if svis > 0 {
+		shape += "/" + visName3[svis] + "-left-open-in-class-self-block"
+	}
 	switch mode {
 	case 0:
 		flags.IsDefineInfo = true
@@ -1346,8 +1384,12 @@ func VerifDefineInfo(n int) {
 		chk("C22-i-pub", rPub, "i/public", "public-instance-method")
 		chk("C22-i-cls", rCls, "c/public", "def-self-method")
 		chk("C22-i-vis", rVis, "i/"+visName, "method-under-"+visName+"-section")
-		chk("C22-i-sing", rSing, "c/public", "class-self-block-method")
-		chk("C22-i-after", rAfter, "i/public", "method-after-visibility-section-reset")
+		chk("C22-i-sing", rSing, "c/"+visName3[svis], "class-self-block-method")
+		if svis > 0 {
+			chk("C22-i-after", rAfter, "i/public", "method-after-class-self-block-ending-in-"+visName3[svis]+"-section")
+		} else {
+			chk("C22-i-after", rAfter, "i/public", "method-after-visibility-section-reset")
+		}
 		chk("C22-i-top", rTop, "i/public", "top-level-method-with-multi-line-signature")
 	case 1:
 		flags.IsDefineAllInfo = true
@@ -1367,10 +1409,10 @@ func VerifDefineInfo(n int) {
 		chk("C22-d-top", "", "top_m", rTop, "top-level-method-with-multi-line-signature")
 	case 2:
 		flags.IsHover = true
-		k := verifapi.Int("callrow", 0, 2)
-		target := verifapi.PickInt(k, cPub, cTop, cCls)
-		want := verifapi.Pick(k, "pub_m", "top_m", "cls_m")
-		verifapi.Witness("C22-hover.row", verifapi.Pick(k, verifItoa(cPub), verifItoa(cTop), verifItoa(cCls)))
+		k := verifapi.Int("callrow", 0, 3)
+		target := verifapi.PickInt(k, cPub, cTop, cCls, cAfter)
+		want := verifapi.Pick(k, "pub_m", "top_m", "cls_m", "after_m")
+		verifapi.Witness("C22-hover.row", verifapi.Pick(k, verifItoa(cPub), verifItoa(cTop), verifItoa(cCls), verifItoa(cAfter)))
 		verifapi.Witness("C22-hover.method", want)
 		out := verifRunFlags(src, flags, target)
 		verifapi.Reach("ran")
